@@ -47,13 +47,17 @@ theorem retained_checkpoint_listed_partial (range : KGRange) (nbrs : List KGRang
 
 /-! ## WAL deletion at the save after a retention update -/
 
+/-- a checkpoint is kept exactly if its id is listed or it is newer than every listed id -/
+theorem keeps_iff (ids : List Nat) (c : Ckpt) : keeps ids c = true ↔ c.id ∈ ids ∨ ids.foldl max 0 < c.id := by
+  simp [keeps]
+
 /-- `UpdateRetainedCheckpoints(ids)`: afterwards exactly the WAL files of the dropped checkpoints are gone — no
 table file, no WAL of a kept checkpoint unless a dropped checkpoint references the same file — the checkpoint list
 (= the saved document) holds exactly the kept checkpoints, and the job's view is untouched. Any number of instances. -/
 theorem wal_gc (s s' : State) (i : Nat) (ids : List Nat) (x : Inst) (hx : s.insts[i]? = some x)
     (h : step s (.retain i ids) = some s') :
-    (∀ f, f ∈ s'.files ↔ f ∈ s.files ∧ ¬ ∃ c ∈ x.ckpts, c.id ∉ ids ∧ ∃ w ∈ c.wals, f = .wal w) ∧
-    (∃ x', s'.insts[i]? = some x' ∧ ∀ c, c ∈ x'.ckpts ↔ c ∈ x.ckpts ∧ c.id ∈ ids) := by
+    (∀ f, f ∈ s'.files ↔ f ∈ s.files ∧ ¬ ∃ c ∈ x.ckpts, keeps ids c = false ∧ ∃ w ∈ c.wals, f = .wal w) ∧
+    (∃ x', s'.insts[i]? = some x' ∧ ∀ c, c ∈ x'.ckpts ↔ c ∈ x.ckpts ∧ keeps ids c = true) := by
   obtain ⟨hf, hi, _⟩ := retain_effect hx h
   refine ⟨?_, _, hi, fun c => mem_keptOf⟩
   intro f
